@@ -83,7 +83,7 @@ def run_case(case, obs) -> None:  # noqa: C901, PLR0912, PLR0915
     s = m.system
     q, p = m.random_point(rng, scale=float(rng.choice([0.3, 1.0, 1.5])))
     cname = type(s).__name__
-    mk = spec.get("metric", "-")
+    mk = spec.get("metric", spec.get("generic", "-"))
     tagbase = f"{cname}"
     if spec.get("linear") == "degenerate":
         q = m.target.degenerate_point(rng, case.get("rel_gap", 0.0))
